@@ -49,6 +49,115 @@ pub fn polylines_of(ops: &[PathOp]) -> Vec<Polyline> {
     out
 }
 
+/// the path with every curve replaced by a polyline sampled from the true curve finely enough
+/// to stay within 0.01 device px of it (`scale` = device px per user unit)
+pub fn model_flatten(ops: &[PathOp], scale: f64) -> Vec<PathOp> {
+    use crate::model::curve::Curve;
+    let mut out: Vec<PathOp> = Vec::new();
+    let mut cur: Option<P2> = None;
+    let mut start: Option<P2> = None;
+    let pt = |p: P2| raqote::Point::new(p.0 as f32, p.1 as f32);
+    for op in ops {
+        match *op {
+            PathOp::MoveTo(p) => {
+                cur = Some((p.x as f64, p.y as f64));
+                start = cur;
+                out.push(*op);
+            }
+            PathOp::LineTo(p) => {
+                if cur.is_none() {
+                    start = Some((p.x as f64, p.y as f64));
+                }
+                cur = Some((p.x as f64, p.y as f64));
+                out.push(*op);
+            }
+            PathOp::Close => {
+                cur = start;
+                out.push(*op);
+            }
+            PathOp::QuadTo(c, e) => {
+                let c = (c.x as f64, c.y as f64);
+                let e = (e.x as f64, e.y as f64);
+                let s = cur.unwrap_or(c);
+                if cur.is_none() {
+                    start = Some(c);
+                    out.push(PathOp::LineTo(pt(c)));
+                }
+                let a2 = ((s.0 - 2.0 * c.0 + e.0).powi(2) + (s.1 - 2.0 * c.1 + e.1).powi(2)).sqrt() * scale;
+                let n = 16usize.max((a2 / 0.08).sqrt().ceil() as usize);
+                for q in Curve::Quad(s, c, e).sample(n).into_iter().skip(1) {
+                    out.push(PathOp::LineTo(pt(q)));
+                }
+                cur = Some(e);
+            }
+            PathOp::CubicTo(a, b, e) => {
+                let a = (a.x as f64, a.y as f64);
+                let b = (b.x as f64, b.y as f64);
+                let e = (e.x as f64, e.y as f64);
+                let s = cur.unwrap_or(a);
+                if cur.is_none() {
+                    start = Some(a);
+                    out.push(PathOp::LineTo(pt(a)));
+                }
+                let d1 = ((s.0 - 2.0 * a.0 + b.0).powi(2) + (s.1 - 2.0 * a.1 + b.1).powi(2)).sqrt();
+                let d2 = ((a.0 - 2.0 * b.0 + e.0).powi(2) + (a.1 - 2.0 * b.1 + e.1).powi(2)).sqrt();
+                let n = 16usize.max((3.0 * d1.max(d2) * scale / 0.08).sqrt().ceil() as usize);
+                for q in Curve::Cubic(s, a, b, e).sample(n).into_iter().skip(1) {
+                    out.push(PathOp::LineTo(pt(q)));
+                }
+                cur = Some(e);
+            }
+        }
+    }
+    out
+}
+
+fn has_collinear_curve(ops: &[PathOp]) -> bool {
+    let mut cur: Option<(f64, f64)> = None;
+    let mut start: Option<(f64, f64)> = None;
+    let f = |p: raqote::Point| (p.x as f64, p.y as f64);
+    let col = |pts: &[(f64, f64)]| {
+        let (a, e) = (pts[0], pts[pts.len() - 1]);
+        // direction: first non-zero difference from a
+        let d = pts.iter().map(|p| (p.0 - a.0, p.1 - a.1)).find(|d| d.0 != 0.0 || d.1 != 0.0);
+        let _ = e;
+        match d {
+            None => true,
+            Some(d) => pts.iter().all(|p| ((p.0 - a.0) * d.1 - (p.1 - a.1) * d.0).abs() <= 1e-6 * (d.0.abs() + d.1.abs()) * ((p.0 - a.0).abs() + (p.1 - a.1).abs() + 1e-30)),
+        }
+    };
+    for op in ops {
+        match *op {
+            PathOp::MoveTo(p) => {
+                cur = Some(f(p));
+                start = cur;
+            }
+            PathOp::LineTo(p) => {
+                if cur.is_none() {
+                    start = Some(f(p));
+                }
+                cur = Some(f(p));
+            }
+            PathOp::Close => cur = start,
+            PathOp::QuadTo(c, e) => {
+                let s = cur.unwrap_or(f(c));
+                if col(&[s, f(c), f(e)]) {
+                    return true;
+                }
+                cur = Some(f(e));
+            }
+            PathOp::CubicTo(a, b, e) => {
+                let s = cur.unwrap_or(f(a));
+                if col(&[s, f(a), f(b), f(e)]) {
+                    return true;
+                }
+                cur = Some(f(e));
+            }
+        }
+    }
+    false
+}
+
 fn params(st: &StyleSpec) -> StrokeParams {
     StrokeParams {
         width: st.width as f64,
@@ -144,6 +253,15 @@ pub fn check_region(case: &str, got: &[u32], w: i32, h: i32, lines: &[Polyline],
 }
 
 pub fn eval(path: &PathSpec, st: &StyleSpec, xf: &Xf) -> Result<Stat, Violation> {
+    eval_with(path, st, xf, false)
+}
+
+/// `true_curve`: take the region of the true curve (finely sampled) instead of the region of
+/// the polyline Path::flatten produces. The property defines the stroke of a curve on its
+/// flattened polyline (joins at the flattening vertices included), so C04 itself uses the
+/// library's polyline; C11 asks for the image of the user-space stroke and uses the true
+/// curve with round joins (where the two differ by no more than the flattening deviation).
+pub fn eval_with(path: &PathSpec, st: &StyleSpec, xf: &Xf, true_curve: bool) -> Result<Stat, Violation> {
     let scene = scene_of(path, st, xf);
     let case = scene.to_string();
     let got = super::common::render(&scene).map_err(|p| Violation::new("stroke/panic", case.clone(), p))?;
@@ -158,9 +276,18 @@ pub fn eval(path: &PathSpec, st: &StyleSpec, xf: &Xf) -> Result<Stat, Violation>
     let curved = path.ops.iter().any(|o| matches!(o, POp::Q(..) | POp::C(..) | POp::A(..)));
     let t = xf_to(xf);
     // the polyline the stroker works on: the flattened path (straight paths are unchanged)
-    let tol = 0.1 / t.determinant().abs().sqrt();
-    let flat = guard(|| path.build().flatten(tol)).map_err(|p| Violation::new("flatten/panic", case.clone(), p))?;
-    let lines = polylines_of(&flat.ops);
+    // every curve is replaced by a fine f64 sampling of the true curve (within 0.01 device
+    // px), independent of Path::flatten
+    // curves whose control polygon is collinear (out-and-back curves: the tangent reverses in a
+    // cusp, where the join depends on rounding noise of the flattening) keep the library's own
+    // polyline as the reference
+    let built = path.build();
+    let lines = if !true_curve || has_collinear_curve(&built.ops) {
+        let tol = 0.1 / t.determinant().abs().sqrt();
+        polylines_of(&guard(|| built.flatten(tol)).map_err(|p| Violation::new("flatten/panic", case.clone(), p))?.ops)
+    } else {
+        polylines_of(&model_flatten(&built.ops, t.determinant().abs().sqrt() as f64))
+    };
     let mu = if curved { 1.0 } else { 0.5 };
     let stat = check_region(&case, &got, SURF, SURF, &lines, &params(st), xf, mu, "stroke")?;
     // differential oracle for straight paths: stroke under T == fill of the transformed outline under I
